@@ -637,6 +637,37 @@ func runC09(p *core.Prog, r *core.Report) {
 				})
 			}
 		}
+		// …and reads the document as it was given: the bytes handed to the decoder come from the file or from the decoded
+		// environment carrier and from nowhere else (no expansion, templating or rewriting in between)
+		if len(c.JSONStep) > 0 {
+			jv := p.Inl(c.JSONStep[0])
+			okDoc, nDec := true, 0
+			whyDoc := ""
+			sx.Instrs(jv, func(in ssa.Instruction) {
+				cc, ok := in.(*ssa.Call)
+				if !ok || len(cc.Call.Args) < 2 {
+					return
+				}
+				if n := sx.CalleeName(cc); n != "encoding/json.Unmarshal" && !strings.HasSuffix(n, "config.JsonUnmarshal") {
+					return
+				}
+				nDec++
+				for o := range sx.Origins(cc.Call.Args[0]) {
+					if !strings.HasPrefix(o, "call:") {
+						continue
+					}
+					switch strings.TrimPrefix(o, "call:") {
+					case "os.ReadFile", "io.ReadAll", "(*encoding/base64.Encoding).DecodeString", "(*encoding/base64.Encoding).Decode", "(*encoding/base64.Encoding).AppendDecode", "bytes.TrimSpace", "(*bytes.Buffer).Bytes":
+					default:
+						okDoc = false
+						whyDoc = "the bytes given to the JSON decoder at " + p.Pos(cc.Pos()) + " pass through " + strings.TrimPrefix(o, "call:") + ": the document applied is not the one the file / " + "the environment carrier holds"
+					}
+				}
+			})
+			if nDec > 0 {
+				r.Check(okDoc, "C09-R3", "the JSON step decodes the document as given", p.FuncPos(jv), "decoder input comes from os.ReadFile / base64 decoding only", whyDoc+" (e.g. `$`-sequences in string values are expanded: the field gets neither the JSON value nor anything a higher-priority source said)")
+			}
+		}
 		r.Check(okPtr, "C09-R3", "the JSON step writes the struct given to NewFlagSet", p.FuncPos(c.NewSet), "FlagSet.ptr is NewFlagSet's argument and the only JSON target", why)
 	}
 
